@@ -141,7 +141,10 @@ def gen_layout(rng, big=False):
         elif r < 0.65:
             pieces.append(("apush", X(rng, [nm, rng.choice(["+", "-"]), lit(rng, rng.choice([0, 1, 2, 3]))])))
         elif r < 0.75:
-            pieces.append(("apush", X(rng, [lit(rng, rng.choice([300, 600, 66000])), "-", nm])))
+            # an operand that SHRINKS as the label moves, placed so that its value sits at a byte-length boundary:
+            # the push may be widened in one relaxation round and fit in fewer bytes after the next
+            k = rng.choice([target + 255 + rng.randrange(-6, 8), 300, 600, 66000, target + 65535 + rng.randrange(-4, 6)])
+            pieces.append(("apush", X(rng, [lit(rng, k), "-", nm])))
         elif r < 0.9:
             pieces.append(("push", rng.choice([2, 3]), X(rng, [nm])))
         else:
@@ -158,6 +161,27 @@ def gen_layout(rng, big=False):
             prog += filler(rng, rng.choice([1, 2, 3]))
     if cut == len(pieces):
         prog += filler(rng, target)
+    return prog
+
+
+def gen_shrink(rng):
+    """%push operands that DECREASE when a later label moves (K - label, K / label), tuned so that the value crosses a
+    byte-length boundary between two relaxation rounds: the push is widened and afterwards fits in fewer bytes, so the
+    allotted width exceeds the minimal width of the final value; labels behind it must still match real offsets"""
+    n = rng.choice([0, 1, 5, 40, 200, 250])
+    bound, grow = rng.choice([(256, 1), (256, 1), (65536, 1)])
+    pre = rng.choice([0, 0, 1, 3])
+    # with one-byte width the label sits at pre + 2 + n; the value must need one byte more there, and fit again after widening
+    delta = rng.choice([0, 0, 0, 1, -1, 2])
+    k = (pre + 2 + n) + bound + delta
+    prog = filler(rng, pre)
+    prog.append(("apush", X(rng, [lit(rng, k), "-", "t"])))
+    prog += filler(rng, n)
+    prog += [("label", "t"), ("op", "jumpdest")]
+    if rng.random() < 0.5:
+        prog += filler(rng, rng.randrange(0, 4)) + [("label", "u"), ("op", "jumpdest"), ("apush", X(rng, ["u"]))]
+    if rng.random() < 0.3:
+        prog.append(("apush", X(rng, [lit(rng, k + 3), "-", "t"])))
     return prog
 
 
@@ -329,7 +353,7 @@ def inject_fault(rng, prog):
     """break a well-formed program in one of the ways C13 lists"""
     prog = list(prog)
     kind = rng.choice(["undef_label", "dup_label", "undef_imacro", "undef_emacro", "dup_macro", "arity", "div0", "too_large",
-                       "negative", "undef_var", "self_macro", "self_emacro"])
+                       "negative", "undef_var", "self_macro", "self_emacro", "surplus_undef_label", "surplus_undef_macro"])
     pos = rng.randrange(0, len(prog) + 1)
     if kind == "undef_label": prog.insert(pos, ("push", 2, X(rng, rng.choice([["nowhere"], ["nowhere", "+", "1"], ["2", "*", "nowhere"]]))))
     elif kind == "dup_label": prog[pos:pos] = [("label", "dd")]; prog.insert(rng.randrange(0, len(prog) + 1), ("label", "dd"))
@@ -343,6 +367,14 @@ def inject_fault(rng, prog):
     elif kind == "too_large": prog.insert(pos, rng.choice([("push", 1, X(rng, ["255", "+", "1"])), ("apush", X(rng, [lit(rng, 2 ** 256)]))]))
     elif kind == "negative": prog.insert(pos, rng.choice([("push", 1, X(rng, ["1", "-", "2"])), ("apush", X(rng, ["-7"]))]))
     elif kind == "undef_var": prog.insert(pos, ("push", 1, X(rng, ["$nope"])))
+    elif kind in ("surplus_undef_label", "surplus_undef_macro"):
+        # a name mentioned only in an argument the expression macro ignores
+        prog.insert(0, ("edef", "sp1", ["x"], X(rng, ["$x"])))
+        extra = ["nowhere"] if kind == "surplus_undef_label" else ["ghost", "(", "2", ")"]
+        first = rng.choice([["1"], ["7", "+", "1"]])
+        stmt = rng.choice([("push", 1, X(rng, ["sp1", "("] + first + [","] + extra + [")"])),
+                           ("apush", X(rng, ["sp1", "("] + first + [","] + extra + [")"]))])
+        prog.insert(rng.randrange(1, len(prog) + 1), stmt)
     elif kind == "self_macro": prog.insert(0, ("mdef", "rec", [], [("op", "pc"), ("minv", "rec", [])])); prog.append(("minv", "rec", []))
     elif kind == "self_emacro": prog.insert(0, ("edef", "rece", ["x"], X(rng, ["rece", "(", "$x", ")"]))); prog.append(("push", 1, X(rng, ["rece", "(", "1", ")"])))
     return prog, kind
